@@ -44,10 +44,19 @@ fn imgs() -> &'static Imgs {
         hkb: image(&handler(H_KB, KB_EXTRA)), ht: image(&handler(H_T, TRAP_EXTRA)),
     })
 }
+thread_local! { static CHURN: std::cell::Cell<u32> = const { std::cell::Cell::new(0) }; }
+/// scale: the same schedule on a simulator that had `churn` devices attached and removed before (the requesting devices get ids past 2^8 / 2^9)
+fn check_churn(prog: usize, v: &Variant, churn: u32) -> Result<(u64, bool), (String, String)> {
+    CHURN.with(|c| c.set(churn));
+    let r = check_f(prog, v, false).map_err(|(s, d)| (s, format!("after {churn} device attach/remove rounds: {d}")));
+    CHURN.with(|c| c.set(0));
+    r
+}
 fn machine(prog: usize, ign: bool) -> Machine {
     let im = imgs();
     let mut m = Machine::user();
     m.ignore_priv = ign;
+    m.device_churn = CHURN.with(|c| c.get());
     m.regs = [1, 2, 3, 4, 5, 6, 0xFD80, 7];
     m.kb = Some(vec![]);
     m.pokes.extend(im.progs[prog].iter().copied());
@@ -179,6 +188,20 @@ pub fn run_engine(ctx: &Ctx) -> Report {
             });
             rep.absorb(r);
         }
+        // scale: 0-1 requests at every poll on simulators whose device ids were pushed past 2^8 and 2^9
+        for churn in [253u32, 254, 509, 510, 600] { for k in 0..=1usize {
+            let n = slots.pow(k as u32);
+            let r = sweep(ctx, n, 16, |s, acc| {
+                let Some(events) = schedule(s, k, slots) else { return };
+                let v = Variant::Devices { pa: 4, pb: 7, events };
+                acc.evals += 1; acc.traces += 1; acc.count("schedules_device_churn", 1);
+                match check_churn(prog, &v, churn) {
+                    Ok((p, any)) => { acc.transitions += p; if any { acc.nontrivial += 1; } }
+                    Err((sig, d)) => acc.violation(sig, format!("c:{prog}:{k}:{s}:{churn}"), d),
+                }
+            });
+            rep.absorb(r);
+        } }
         // keyboard variant: 0..2 bytes typed before chosen polls
         let r = sweep(ctx, (polls + 1) * (polls + 1), 16, |i, acc| {
             let (a, b) = (i / (polls + 1), i % (polls + 1));
@@ -215,6 +238,7 @@ pub fn replay(case: &str) -> Option<String> {
         "d" => { let polls = base_polls(prog); let ign = p.get(4) == Some(&"i"); let (pa, pb) = PRIOS[if ign { 0 } else { n(4)? as usize }];
             let v = Variant::Devices { pa, pb, events: schedule(n(3)?, n(2)? as usize, polls * 2)? };
             return check_f(prog, &v, ign).err().map(|(s, d)| format!("[{s}] {d}")); }
+        "c" => { let polls = base_polls(prog); let v = Variant::Devices { pa: 4, pb: 7, events: schedule(n(3)?, n(2)? as usize, polls * 2)? }; return check_churn(prog, &v, n(4)? as u32).err().map(|(s, d)| format!("[{s}] {d}")); }
         "k" => { let polls = base_polls(prog); Variant::Keyboard { appends: [n(2)?, n(3)?].into_iter().filter(|x| *x < polls).collect() } }
         "t" => Variant::Timer { n: n(2)? as u32 },
         _ => return None,
